@@ -166,7 +166,11 @@ func (c *racConv) val(t types.Type, v interface{}) Term {
 		dt, _ := inner["dt"].(string)
 		if gt := c.e.p.resolveTypeString(dt); gt != nil {
 			if _, isPtr := gt.Underlying().(*types.Pointer); isPtr {
-				return c.val(gt, inner["v"])
+				p := c.val(gt, inner["v"])
+				if p.S == "0" {
+					return tInt(-1) // typed nil
+				}
+				return p
 			}
 			if _, isBasic := gt.Underlying().(*types.Basic); isBasic {
 				return e.boxTerm(typeKey(gt), c.val(gt, inner["v"]))
